@@ -43,3 +43,19 @@ PROPS['C01'] = dict(
              'IEEE1905','EthernetPause','HopByHopExtensionHeader']],
     timeout={'quick': 900, 'thorough': 6*3600},
 )
+
+PROPS['C02'] = dict(
+    runs=[run('plain')], shards=16, watchdog=True, level='exploration',
+    rule=('differential against the independent reference decoder refdec.Decode (documented EtherType / IP-protocol / UDP-port table, '
+          'DESIGN appendix C acceptance rules): (A1) full cross product of the 17x17 UDP port classes x {IPv4,IPv6}, (A2) structural frames of every '
+          'class x 7 mutations, (A3) truncation at every offset; compared: error-vs-success, PayloadID, MACs, IPs, ports, presence and start '
+          'pointer of IP4()/IP6()/UDP()/TCP()/Payload(), Payload() running to the end of the frame. (B) getter tables: every field of every view '
+          'set to boundary/random values by the refdec encoder and read back through the getter. Non-trivial = a compared frame (both sides ran); '
+          'distinct = (generator kind incl. port-class pair and source class, length bucket, padding, mutation, reference error layer) / view type'),
+    assumptions=['refdec (self-tested against golang.org/x/net ipv4/ipv6/icmp/dnsmessage at start) is the trusted oracle',
+                 "don't-care zones where RFCs leave the receiver free: IPv6 with trailing padding, UDP length != bytes present, ARP hlen/plen != 6/4, "
+                 'IPv4 version nibble != 4, 802.3 length 1501..1535; payload offset of an unknown IP protocol',
+                 'ICMP4Redirect.Addrs() is not compared (the view mixes two message formats)'],
+    min_obs={'quick': {'getter_comparisons': 20000}, 'thorough': {'getter_comparisons': 20000}},
+    timeout={'quick': 900, 'thorough': 6*3600},
+)
